@@ -16,7 +16,73 @@ fn prop_static(id: &str) -> &'static str {
     }
 }
 
-pub fn replay(id: &str, case: &serde_json::Value) -> Result<(), String> {
+/// C04 also holds for the buffers the drivers share: the same platform ledger judges complete
+/// drivers on their reference devices. Only the ledger's share/unshare facts count here; whatever
+/// else a driver's reference device notices belongs to that driver's property.
+#[derive(Clone, Debug, serde::Serialize, serde::Deserialize)]
+pub enum DrvCase {
+    Blk(super::c14::BCase),
+    Console(super::c15::KCase),
+    Net(super::c16::NCase),
+    Vsock(super::c18::VCase),
+    Events(super::c19::ECase),
+    Cmd(super::c20::CCase),
+}
+
+pub fn drivers(c: &DrvCase, st: &mut Stats) -> Result<(), String> {
+    let mut scratch = Stats::default();
+    let r = match c {
+        DrvCase::Blk(c) => super::c14::check(c, &mut scratch),
+        DrvCase::Console(c) => super::c15::check(c, &mut scratch),
+        DrvCase::Net(c) => super::c16::check(c, &mut scratch),
+        DrvCase::Vsock(c) => super::c18::check(c, &mut scratch),
+        DrvCase::Events(c) => super::c19::check(c, &mut scratch),
+        DrvCase::Cmd(c) => super::c20::check(c, &mut scratch),
+    };
+    st.class("driver_histories_under_the_ledger");
+    match r {
+        Err(m) if m.contains("[unshare]") || m.contains("[share]") => Err(m),
+        Err(_) => {
+            st.class("driver_run_stopped_by_another_oracle");
+            Ok(())
+        }
+        Ok(()) => {
+            let shares = crate::world::with(|w| w.hal.share_calls);
+            if shares >= 4 {
+                let mut s = crate::runner::Sig::new();
+                s.add(0xd4).add(match c {
+                    DrvCase::Blk(_) => 1,
+                    DrvCase::Console(_) => 2,
+                    DrvCase::Net(_) => 3,
+                    DrvCase::Vsock(_) => 4,
+                    DrvCase::Events(_) => 5,
+                    DrvCase::Cmd(_) => 6,
+                });
+                s.add(shares).add(scratch.sigs.iter().copied().min().unwrap_or(0));
+                st.nontrivial(s.get(), || json!({"driver_history": match c { DrvCase::Blk(_) => "blk", DrvCase::Console(_) => "console", DrvCase::Net(_) => "net", DrvCase::Vsock(_) => "vsock", DrvCase::Events(_) => "events", DrvCase::Cmd(_) => "cmd" }, "share_calls": shares}));
+            }
+            Ok(())
+        }
+    }
+}
+
+fn drv_strategy() -> impl proptest::strategy::Strategy<Value = DrvCase> {
+    use proptest::prelude::*;
+    prop_oneof![
+        1 => super::c14::strategy().prop_map(DrvCase::Blk),
+        1 => super::c15::strategy().prop_map(DrvCase::Console),
+        3 => super::c16::strategy().prop_map(DrvCase::Net),
+        1 => super::c18::strategy().prop_map(DrvCase::Vsock),
+        1 => super::c19::strategy().prop_map(DrvCase::Events),
+        1 => super::c20::strategy().prop_map(DrvCase::Cmd),
+    ]
+}
+
+pub fn replay(id: &str, engine: &str, case: &serde_json::Value) -> Result<(), String> {
+    if engine == "drivers" {
+        let c: DrvCase = serde_json::from_value(case.clone()).map_err(|e| e.to_string())?;
+        return drivers(&c, &mut Stats::default());
+    }
     let c: QCase = serde_json::from_value(case.clone()).map_err(|e| e.to_string())?;
     let mut st = Stats::default();
     qh::run_case(&c, prop_static(id), &mut st)
@@ -73,6 +139,13 @@ pub fn run(ctx: &Ctx) -> Report {
         failure = failure.or(f);
     }
 
+    // 5. (C04) complete drivers under the same ledger
+    if failure.is_none() && prop == "C04" {
+        let (st, f) = run_proptest(ctx, "drivers", 3, ctx.n(30_000, 1_500_000), drv_strategy, |c: &DrvCase, st| drivers(c, st));
+        stats.merge(st);
+        failure = failure.or(f);
+    }
+
     let (rule, assumptions): (&'static str, Vec<String>) = match prop {
         "C01" => (
             "proptest histories (Add/AddFill/Fetch/Complete/Pop/...) over queue sizes 2^0..2^15 x indirect x event-idx x access-platform x legacy/modern, plus explicit >65536-submission runs and deterministic histories with buffer counts on the boundaries of queue size / free space / 16 bits (n, n+-1, 2n, 65535..65537, free, free+1) on empty, full and all-but-one-full queues up to size 32768; after every accepted submission the reference device walks the chain from the new ring slot and compares it with the ledger of share() results and the caller's buffers. One case = one history. Non-trivial = a history with >=1 submission made while >=1 other chain is outstanding and after >=1 completion was consumed (free list permuted; their number is the class nontrivial_submissions); distinct = hash over (size, flags, buffer counts, descriptor ids of the chain) of all such submissions of the history. Whether a multi-buffer submission on an indirect-enabled queue uses an indirect table is read off the published chain, not prescribed.",
@@ -90,7 +163,7 @@ pub fn run(ctx: &Ctx) -> Report {
             vec!["available_desc() in indirect mode is compared with the crate's documented N-or-0 behaviour; the true free count is measured behaviourally".into()],
         ),
         "C04" => (
-            "same histories under the bounce Hal: per operation the ledger must show exactly one share per buffer (+1 per indirect table) with exact range/direction/flag, exactly the matching unshares on a successful pop, none on refused/failed operations, no live share at the end; device-written bytes appear in caller buffers exactly at pop. Non-trivial = history containing an indirect or >=3-buffer chain, a refused submission and an out-of-order pop; distinct = (config, hash of op kinds and outcomes).",
+            "same histories under the bounce Hal: per operation the ledger must show exactly one share per buffer (+1 per indirect table) with exact range/direction/flag, exactly the matching unshares on a successful pop, none on refused/failed operations, no live share at the end; device-written bytes appear in caller buffers exactly at pop. The same ledger also judges generated histories of complete drivers (blk, console, net raw/buffered, vsock, event queues, gpu/sound/rng/rtc/9p) on their reference devices: only share/unshare facts are reported here. Non-trivial = history containing an indirect or >=3-buffer chain, a refused submission and an out-of-order pop; distinct = (config, hash of op kinds and outcomes).",
             vec!["bounce buffers are initialised with the caller's bytes for both directions (as swiotlb does), and copied back in full at unshare".into()],
         ),
         _ => unreachable!(),
